@@ -29,10 +29,10 @@ CHECKS = {
  "C03": stateful("C03", "Exhaustive TLC check of PkceGuard/PkceBindingStable over all sequences of redemption attempts for the 8 PKCE configurations; every attempt sequence up to the generation depth is executed on the real code with real verifiers/S256 challenges and validated.", "DESIGN.md 6 C03"),
  "C04": stateful("C04", "TLC checks RefreshOnce/ReuseKillsFamily/FamilyIsolation on grants of four origins (code, hybrid, password, device) with chains and replays of any generation by the owner or a stranger (family C04), and one refresh chain followed through time with short lifetimes (family C04b); FCInv/FCRefines link the design to FamilyCore.tla, whose invariant (one honoured refresh token per grant, killed grants stay dead) Apalache shows inductive for histories of any length (run at thorough). Behaviours replayed on the real code, every token of every generation probed after every step.", "DESIGN.md 6 C04"),
  "C05": stateful("C05", "TLC checks RefreshGuard/RefreshPreservesGrant/RtIssuanceRule over grant x refresh parameters x presenting client x registration changes x refresh-scope configuration; behaviours replayed and validated incl. payload comparison.", "DESIGN.md 6 C05"),
- "C07": stateful("C07", "TLC checks NothingAfterExpiry/StepExpiryRespected for codes, opaque and JWT access tokens, refresh tokens (finite and unlimited), device/user codes and PAR request URIs with an explicit clock; histories with ticks on both sides of every expiry executed under the synctest clock and validated, advertised expires_in compared.", "DESIGN.md 6 C07"),
+ "C07": stateful("C07", "TLC checks NothingAfterExpiry/StepExpiryRespected for codes, opaque and JWT access tokens, refresh tokens (finite and unlimited), device/user codes and PAR request URIs with an explicit clock; histories with ticks on both sides of every expiry executed under the synctest clock and validated, advertised expires_in compared. Attached decision tables: TblLifespan (per-client lifetime overrides per grant/token-type pair, unlimited refresh) and the expiry / not-before rows of TblAssertion (JWT assertions).", "DESIGN.md 6 C07"),
  "C08": stateful("C08", "TLC checks RevokeEffective/RevokeOwnerOnly/unknown-inert over every token ever issued x hint x caller (owner, foreign confidential, foreign public, bad secret, unauthenticated; family C08) and over tokens of every age incl. expired ones (family C08b); behaviours replayed on the real code and all tokens probed afterwards.", "DESIGN.md 6 C08"),
  "C09": stateful("C09", "The introspection probe of every token after every step of every history of every stateful check is compared with the spec's verdict and payload; the C09 alphabet adds the introspection endpoint with every caller credential (client secret, bad secret, public client, active / expired / revoked access token as bearer, the inspected token itself, a refresh token as bearer), hint and required-scope list (single and several scopes); for an active answer the reported kind (from the responder), client, subject and scope are compared, for an inactive one that the body is nothing but active=false.", "DESIGN.md 6 C09"),
- "C16": stateful("C16", "TLC checks DeviceGuard/DeviceOnce/DeviceReplayRevokes over start/decide/poll/replay/tick for the reference store and a store following the ErrInvalidatedDeviceCode contract; behaviours replayed and validated.", "DESIGN.md 6 C16"),
+ "C16": stateful("C16", "TLC checks DeviceGuard/DeviceOnce/DeviceReplayRevokes over start/decide/poll/replay/tick for the reference store and a store following the ErrInvalidatedDeviceCode contract (family C16), and one device code followed through time with every decision incl. a consent application that replaces the session (family C16b); behaviours replayed and validated.", "DESIGN.md 6 C16"),
  "C17": stateful("C17", "TLC checks ParOnce/ParClientBound/ParExpires/ParEnforced; behaviours (push, use by right/wrong client, twice, after expiry, with conflicting query parameters, unknown/foreign-prefix URIs; family C17b follows one request_uri through time) replayed; the parameters of the resulting request are compared with the pushed ones.", "DESIGN.md 6 C17"),
 }
 
@@ -58,8 +58,8 @@ CHECKS["C18"] = steps("C18", "fault_enumeration",
     "Steps.tla refines every token-issuing/revoking request into its storage calls; TLC enumerates every call index x error kind (single faults; pairs at thorough) for the code, PKCE, hybrid, replay, refresh, refresh-reuse, revocation (refresh and access token), authorize, implicit, device, client-credentials, password, JWT-bearer, private_key_jwt, PAR push and PAR use flows, with a transactional store with real rollback and with the plain reference store, followed by a retry and a replay, and checks NoTokensOnFailure / TxBalanced / RollbackRestores / FailClosed / RetryStillGuarded in every state. Every one of these fault schedules is forced on the real code through the storage gate and validated step by step (method called, store projection, tx log, result); predicates that need only the observation are evaluated on it as well, also on histories in which the implementation's call sequence has left the specification's.",
     "DESIGN.md 6 C18", "TLA+ step-level spec (Steps/MCSteps) model-checked with TLC; TLC-enumerated fault schedules injected into the real code at the storage interface; recorded traces validated with TLC (TraceSteps)")
 CHECKS["C19"] = steps("C19", "model_checking",
-    "TLC explores every interleaving, at storage-call granularity, of two and three in-flight requests on overlapping credentials (MCSteps ScnConc2/ScnConc3; ScnConc3Big = three complete token requests at once, design checked exhaustively, schedules sampled) and checks HandedOutActiveOrKilledByPeer / MintFresh / refinement of the sequential design; the schedules (all of them at thorough, a seeded sample at quick) are forced on real goroutines through the storage gate and every step is validated: the handler called the storage method the spec names, the call had exactly the specified atomic effect on the store, results and final activity agree. Outside the specification (a TLA+ model cannot see a missing lock) the same harness runs free under the Go race detector with default-constructed and fully populated configurations, a watchdog and recover.",
-    "DESIGN.md 6 C19", "TLA+ step-level spec model-checked with TLC; TLC-generated schedules forced on real goroutines; traces validated with TLC (TraceSteps); Go race detector for the memory-level clause")
+    "TLC explores every interleaving, at storage-call granularity, of two and three in-flight requests on overlapping credentials (MCSteps ScnConc2/ScnConc3; ScnConc3Big = three complete token requests at once, design checked exhaustively, schedules sampled) and checks HandedOutActiveOrKilledByPeer / MintFresh / refinement of the sequential design; the schedules (all of them at thorough, a seeded sample at quick) are forced on real goroutines through the storage gate and every step is validated: the handler called the storage method the spec names, the call had exactly the specified atomic effect on the store, results and final activity agree. Atomicity of each store method itself: goroutines call the reference store free-running on shared keys, call/return events are ordered by an atomic counter, and TLC searches a linearization of every recorded history against StoreLin.tla (one action per critical section, Store.tla operators). Outside the specification (a TLA+ model cannot see a missing lock) the same harness runs free under the Go race detector with default-constructed and fully populated configurations, a watchdog and recover.",
+    "DESIGN.md 6 C19", "TLA+ step-level spec model-checked with TLC; TLC-generated schedules forced on real goroutines; traces validated with TLC (TraceSteps); linearizability of recorded free-running store histories searched by TLC (StoreLin); Go race detector for the memory-level clause")
 
 TABLE_NOTE = ("Trusted: TLC 1.8 (evaluates the decision specification and its ASSUMEd relations on the complete bounded domain and "
               "writes the table with the CommunityModules Json module); the harness code that renders structured inputs to strings / "
